@@ -9,6 +9,7 @@ CONSTANTS
   AllowDupStart = FALSE
   AllowSilentInit = FALSE
   AllowRestartRace = FALSE
+  AllowLateStart = TRUE
   AllowDoubleError = FALSE
   SInsts = {}
   SIds = {}
@@ -35,6 +36,7 @@ CONSTANTS
   FixDup = TRUE
   FixDel = TRUE
   FixInit = TRUE
+  FixLate = FALSE
   PreAcked = FALSE
   Bursts = TRUE
   Sync = TRUE
